@@ -574,52 +574,10 @@ Qed.
 Lemma classify_not_invalid : forall s a, classify s <> Some (InvalidShardingKey, a).
 Proof. intros s a H. apply classify_exact in H. inversion H. Qed.
 
-(* ---- documented (ASCII) language vs the regex crate's ---- *)
-Lemma ci_char_mono : forall c w, ci_char false c w -> ci_char c w.
-Proof. intros c w H. inversion H; subst; try discriminate; constructor; auto. Qed.
-Lemma ci_str_mono : forall k w, ci_str false k w -> ci_str k w.
-Proof. induction 1; constructor; auto using ci_char_mono. Qed.
-
-Lemma LangDoc_Lang : forall c a s, LangDoc c a s -> Lang c a s.
-Proof.
-  intros c a s H. inversion H; subst;
-    [apply L_set_sharding_key | apply L_set_shard | apply L_show_shard | apply L_set_server_role
-     | apply L_show_server_role | apply L_set_primary_reads | apply L_show_primary_reads];
-    auto using ci_str_mono; intuition (auto using ci_str_mono).
-Qed.
-
 Lemma is_ascii_app : forall x y, is_ascii (x ++ y) = is_ascii x && is_ascii y.
 Proof. intros. unfold is_ascii. apply forallb_app. Qed.
 
-Lemma ci_char_ascii : forall c w, ci_char c w -> is_ascii w = true -> ci_char false c w.
-Proof. intros c w H A. inversion H; subst; try (constructor; auto; fail); vm_compute in A; discriminate. Qed.
-Lemma ci_str_ascii : forall k w, ci_str k w -> is_ascii w = true -> ci_str false k w.
-Proof.
-  induction 1; intros A; [constructor|]. rewrite is_ascii_app in A. apply andb_true_iff in A. destruct A.
-  constructor; auto using ci_char_ascii.
-Qed.
-
-Ltac split_ascii A :=
-  repeat (rewrite is_ascii_app in A);
-  repeat match goal with H : (_ && _) = true |- _ => apply andb_true_iff in H; destruct H end.
-
-Lemma Lang_ascii : forall c a s, Lang c a s -> is_ascii s = true -> LangDoc c a s.
-Proof.
-  intros c a s H A. inversion H; subst; split_ascii A;
-    [apply L_set_sharding_key | apply L_set_shard | apply L_show_shard | apply L_set_server_role
-     | apply L_show_server_role | apply L_set_primary_reads | apply L_show_primary_reads];
-    auto using ci_str_ascii; intuition (auto using ci_str_ascii).
-Qed.
-
-Lemma classify_documented : forall s c a, known_fold s = false ->
-  (classify s = Some (c, a) <-> LangDoc c a s).
-Proof.
-  intros s c a K. unfold known_fold in K. apply negb_false_iff in K. rewrite classify_exact. split.
-  - intros H. apply Lang_ascii; auto.
-  - apply LangDoc_Lang.
-Qed.
-
-Lemma ci_str_refl : forall u w, ci_str u w w.
+Lemma ci_str_refl : forall w, ci_str w w.
 Proof. induction w; [constructor|]. change (a :: w) with ([a] ++ w). constructor; auto. constructor. Qed.
 
 (* ------------------------------------------------------------------ arguments as the code reads them *)
@@ -637,26 +595,20 @@ Definition ArgP (c : cmd) (a : list N) : Prop :=
 Lemma Lang_ArgP : forall c a s, Lang c a s -> ArgP c a.
 Proof. intros c a s H. inversion H; subst; cbn [ArgP]; auto. Qed.
 
-Definition no_sk (w : list N) : bool := forallb (fun c => negb (lower c =? 115) && negb (lower c =? 107)) w.
-
 Lemma lower_idem : forall c, lower (lower c) = lower c.
 Proof. intros c. destruct (lower_cases c) as [[? E]|[? E]]; rewrite E; auto. destruct (lower_cases (c + 32)) as [[? E']|[? E']]; rewrite E'; lia. Qed.
 
-Lemma ci_char_lower : forall u c w, negb (lower c =? 115) && negb (lower c =? 107) = true ->
-  ci_char u c w -> map lower w = [lower c].
+Lemma ci_char_lower : forall c w, ci_char c w -> map lower w = [lower c].
 Proof.
-  intros u c w N H. apply andb_true_iff in N. destruct N as [N1 N2]. apply negb_true_iff in N1, N2. nb.
-  inversion H; subst; cbn [map]; auto.
+  intros c w H. inversion H; subst; cbn [map]; auto.
   - f_equal. destruct (lower_cases (c + 32)) as [[? E]|[? E]]; destruct (lower_cases c) as [[? E']|[? E']]; rewrite E, E'; lia.
   - f_equal. destruct (lower_cases (c - 32)) as [[? E]|[? E]]; destruct (lower_cases c) as [[? E']|[? E']]; rewrite E, E'; lia.
-  - exfalso. destruct H1 as [-> | ->]; vm_compute in N1; congruence.
-  - exfalso. destruct H1 as [-> | ->]; vm_compute in N2; congruence.
 Qed.
 
-Lemma ci_str_lower : forall u w a, no_sk w = true -> ci_str u w a -> map lower a = map lower w.
+Lemma ci_str_lower : forall w a, ci_str w a -> map lower a = map lower w.
 Proof.
-  intros u w a N H. induction H; auto. cbn [no_sk forallb] in N. apply andb_true_iff in N. destruct N as [N1 N2].
-  rewrite map_app. cbn [map]. rewrite (ci_char_lower u c w); auto. cbn [app]. f_equal. auto.
+  intros w a H. induction H; auto.
+  rewrite map_app. cbn [map]. rewrite (ci_char_lower c w); auto. cbn [app]. f_equal. auto.
 Qed.
 
 Lemma upper_lower : forall c, upper (lower c) = upper c.
@@ -668,8 +620,8 @@ Qed.
 Lemma map_upper_lower : forall a, map upper (map lower a) = map upper a.
 Proof. induction a; cbn [map]; auto. rewrite upper_lower. f_equal; auto. Qed.
 
-Lemma ci_str_upper : forall u w a, no_sk w = true -> ci_str u w a -> map upper a = map upper w.
-Proof. intros u w a N H. rewrite <- (map_upper_lower a), <- (map_upper_lower w). f_equal. eapply ci_str_lower; eauto. Qed.
+Lemma ci_str_upper : forall w a, ci_str w a -> map upper a = map upper w.
+Proof. intros w a H. rewrite <- (map_upper_lower a), <- (map_upper_lower w). f_equal. apply ci_str_lower; auto. Qed.
 
 Lemma list_eqb_eq : forall a b, list_eqb a b = true <-> a = b.
 Proof.
@@ -702,14 +654,14 @@ Proof. reflexivity. Qed.
 
 Ltac word_facts W w :=
   let L := fresh "L" in let U := fresh "U" in
-  pose proof (ci_str_lower _ w _ eq_refl W) as L;
-  pose proof (ci_str_upper _ w _ eq_refl W) as U.
+  pose proof (ci_str_lower w _ W) as L;
+  pose proof (ci_str_upper w _ W) as U.
 
 Lemma handle_refines : forall e x c a o,
-  wf_env e -> ArgP c a -> known_c13 c a = false -> o < e_shards e ->
+  wf_env e -> ArgP c a -> o < e_shards e ->
   fst (handle e (concr e x) c a o) = concr e (aexec e x c a o).
 Proof.
-  intros e x c a o [W1 W2] A K O. destruct c; cbn [ArgP] in A; try contradiction.
+  intros e x c a o [W1 W2] A O. destruct c; cbn [ArgP] in A; try contradiction.
   - (* SET SHARDING KEY *)
     unfold handle, texec, parse_i64, aexec. destruct (num_of a <=? i64_max); reflexivity.
   - (* SET SHARD *)
@@ -734,11 +686,10 @@ Proof.
        | word_facts W (B "AUTO") | word_facts W (B "DEFAULT")]; rewrite L; destruct x; reflexivity.
   - subst. reflexivity.
   - (* SET PRIMARY READS *)
-    cbn [known_c13] in K. apply negb_false_iff in K. apply list_eqb_eq in K.
     unfold handle, texec, aexec, preads_of_arg, tri_of, ci_eqb.
     destruct A as [W|[W|W]];
       [word_facts W (B "on") | word_facts W (B "off") | word_facts W (B "default")];
-      rewrite K, L; destruct x; reflexivity.
+      rewrite L; destruct x; reflexivity.
   - subst. reflexivity.
 Qed.
 
@@ -747,13 +698,13 @@ Lemma rec_by : forall (i : input) s, classify s = Some (fst (fst i), snd (fst i)
 Proof. intros i s H. exists s. exact H. Qed.
 
 Definition input_ok (e : env) (i : input) : Prop :=
-  recognised i /\ known_c13 (fst (fst i)) (snd (fst i)) = false /\ snd i < e_shards e.
+  recognised i /\ snd i < e_shards e.
 
 Lemma run_refines : forall e l x, wf_env e -> Forall (input_ok e) l ->
   fst (run e (concr e x) l) = concr e (arun e x l).
 Proof.
   intros e l. induction l as [|[[c a] o] l IH]; intros x W F; [reflexivity|].
-  inversion F as [|i l' [[s R] [K O]] F']; subst. cbn [fst snd] in *.
+  inversion F as [|i l' [[s R] O] F']; subst. cbn [fst snd] in *.
   cbn [run]. destruct (handle e (concr e x) c a o) as [st1 r] eqn:H.
   destruct (run e st1 l) as [st2 rs] eqn:Rn. cbn [fst].
   assert (E : st1 = concr e (aexec e x c a o)).
@@ -780,19 +731,6 @@ Lemma show_reflects_sets : forall e l, wf_env e -> Forall (input_ok e) l ->
   handle e st ShowPrimaryReads [] 0 = (st, RShow (B "primary reads") (render_preads e x)).
 Proof.
   intros e l W F st x. subst st x. rewrite <- concr_init. rewrite run_refines; auto. apply show_renders.
-Qed.
-
-(* D1: an acknowledged SET PRIMARY READS that SHOW does not reflect *)
-Lemma show_refuted : exists e l, wf_env e /\
-  Forall (fun i => recognised i /\ snd i < e_shards e) l /\
-  existsb (fun i => known_c13 (fst (fst i)) (snd (fst i))) l = true /\
-  snd (handle e (fst (run e (init e) l)) ShowPrimaryReads [] 0)
-    <> RShow (B "primary reads") (render_preads e (arun e ainit l)).
-Proof.
-  exists (mkEnv 1 None false true), [(SetPrimaryReads, B "OFF", 0)].
-  split; [split; vm_compute; congruence|]. split.
-  - constructor; [|constructor]. split; [|reflexivity]. exists (B "SET PRIMARY READS TO OFF"). reflexivity.
-  - split; [reflexivity|]. vm_compute. congruence.
 Qed.
 
 (* ------------------------------------------------------------------ numbers of any length *)
@@ -858,14 +796,14 @@ Proof. intros l [->| ->] I; cbn in I; [auto|]. destruct I as [I|[]]. discriminat
 Lemma digits_no59 : forall l, Forall digitP l -> no59 l.
 Proof. intros l F I. rewrite Forall_forall in F. apply F in I. unfold digitP in I. lia. Qed.
 
-Lemma ci_char_no59 : forall u c w, c <> 59 -> ci_char u c w -> no59 w.
+Lemma ci_char_no59 : forall c w, c <> 59 -> ci_char c w -> no59 w.
 Proof.
-  intros u c w NE H I. inversion H; subst; cbn [In] in I;
+  intros c w NE H I. inversion H; subst; cbn [In] in I;
     repeat (destruct I as [I|I]; [try lia; try discriminate|]); auto.
 Qed.
-Lemma ci_str_no59 : forall u k w, no59 k -> ci_str u k w -> no59 w.
+Lemma ci_str_no59 : forall k w, no59 k -> ci_str k w -> no59 w.
 Proof.
-  intros u k w N H. induction H. - intros [].
+  intros k w N H. induction H. - intros [].
   - apply no59_app. + eapply ci_char_no59; eauto. intros ->. apply N. left; auto.
     + apply IHci_str. intros I. apply N. right; auto.
 Qed.
@@ -926,16 +864,16 @@ Proof.
   - cbn [app] in E. apply split_unique in E; auto. + subst; auto. + apply spaces_no59; auto.
 Qed.
 
-(* ------------------------------------------------------------------ the documented language is ASCII *)
-Lemma ci_char_false_ascii : forall c w, ci_char false c w -> c < 128 -> is_ascii w = true.
+(* ------------------------------------------------------------------ commands are pure ASCII *)
+Lemma ci_char_ascii : forall c w, ci_char c w -> c < 128 -> is_ascii w = true.
 Proof.
-  intros c w H A. inversion H; subst; try discriminate; unfold is_ascii; cbn [forallb]; rewrite andb_true_r; apply N.ltb_lt; lia.
+  intros c w H A. inversion H; subst; unfold is_ascii; cbn [forallb]; rewrite andb_true_r; apply N.ltb_lt; lia.
 Qed.
-Lemma ci_str_false_ascii : forall k w, ci_str false k w -> is_ascii k = true -> is_ascii w = true.
+Lemma ci_str_ascii : forall k w, ci_str k w -> is_ascii k = true -> is_ascii w = true.
 Proof.
   induction 1; intros A; auto. unfold is_ascii in A. cbn [forallb] in A. apply andb_true_iff in A. destruct A as [A1 A2].
   rewrite is_ascii_app. apply andb_true_iff. split.
-  - eapply ci_char_false_ascii; eauto. apply N.ltb_lt; auto.
+  - eapply ci_char_ascii; eauto. apply N.ltb_lt; auto.
   - apply IHci_str. exact A2.
 Qed.
 Lemma spaces_ascii : forall l, spaces l -> is_ascii l = true.
@@ -953,16 +891,17 @@ Qed.
 Ltac asc :=
   repeat rewrite is_ascii_app; repeat (apply andb_true_iff; split);
   auto using spaces_ascii, optq_ascii, digits_ascii, Tail_ascii; try reflexivity;
-  try (eapply ci_str_false_ascii; [eassumption|reflexivity]);
-  intuition (auto using digits_ascii; try (eapply ci_str_false_ascii; [eassumption|reflexivity])).
+  try (eapply ci_str_ascii; [eassumption|reflexivity]);
+  intuition (auto using digits_ascii; try (eapply ci_str_ascii; [eassumption|reflexivity])).
 
-Lemma LangDoc_ascii : forall c a s, LangDoc c a s -> is_ascii s = true.
+Lemma Lang_ascii : forall c a s, Lang c a s -> is_ascii s = true.
 Proof. intros c a s H. inversion H; subst; asc. Qed.
 
-Lemma fold_refuted : exists s c a, classify s = Some (c, a) /\ ~ LangDoc c a s.
+(* regression (former D2): the long s / Kelvin sign spellings are not commands *)
+Lemma non_ascii_never_command : forall s, is_ascii s = false -> classify s = None.
 Proof.
-  exists ([197; 191] ++ B "ET SHARD TO 1"), SetShard, (B "1"). split; [vm_compute; reflexivity|].
-  intros H. apply LangDoc_ascii in H. vm_compute in H. discriminate.
+  intros s H. destruct (classify s) as [[c a]|] eqn:C; auto.
+  apply classify_exact in C. apply Lang_ascii in C. congruence.
 Qed.
 
 Lemma LangF_arg_len : forall f a s, LangF f a s -> (length a <= length s)%nat.
